@@ -313,6 +313,8 @@ PROPS = {    "C01": {
             {"name": "C14.iff-dangling", "pkg": SCHED, "replay": "R1",
              "quick": {"entry": "VerifHarness_C14_iff3", "flags": ["-unwind", "40"], "bounds": {"N": 3, "edge_bits": 9, "self_loops": 1, "dangling": "none | one step, first or last in depends"}},
              "thorough": {"entry": "VerifHarness_C14_iff4d", "flags": ["-unwind", "40"], "bounds": {"N": 4, "edge_bits": 12, "self_loops": 0, "dangling": "none | one step, first or last in depends"}}},
+            {"name": "C14.iff-5steps", "pkg": SCHED, "replay": "R1",
+             "thorough": {"entry": "VerifHarness_C14_iff5", "flags": ["-unwind", "60"], "timeout_s": 7200, "sample_paths": 2, "bounds": {"N": 5, "edge_bits": 20, "self_loops": 0, "dangling": 0}}},
             ag_ob("C14.refuse", "VerifHarness_AG_refuse", ["C14."], ["C14.refuse/no-step-or-handler-executes", "C14.refuse/nothing-is-recorded"], {"defects": "2-cycle | self-dependency | dangling name | cycle behind an entry step"}),
         ],
         "assumptions": ["distinct step names", "map iteration in insertion order (results do not depend on order for distinct names)"] + AG_ASSUME,
